@@ -3,7 +3,9 @@
 // C01 model, oracle and operation generator, shared by the two C01 units.
 // THIS FILE EXISTS TWICE: c01_model_core_test.go (package core) is the source,
 // c01_model_plugin_test.go (package elasticquota) is produced from it with
-//   sed 's/^package core$/package elasticquota/' c01_model_core_test.go > c01_model_plugin_test.go
+//
+//	sed 's/^package core$/package elasticquota/' c01_model_core_test.go > c01_model_plugin_test.go
+//
 // Everything package-specific (c01Manager, c01Summary, c01NewManager, the drivers, the Test functions) lives in
 // c01_core_test.go / c01_plugin_test.go.
 //
@@ -420,9 +422,9 @@ type c01World struct {
 	family *c01Family
 
 	// what the case contained
-	sawReparentLoad, sawDeleteLoad, sawOverMax, sawMinRaise, sawMigrate, sawTerminating, sawReset bool
+	sawReparentLoad, sawDeleteLoad, sawOverMax, sawMinRaise, sawMigrate, sawTerminating, sawReset   bool
 	sawCrossQuota, sawResize, sawUnreserve, sawParentPods, sawFallback, sawDirtyDelete, sawRootDiff bool
-	excludedMoves                                                                               int
+	excludedMoves                                                                                   int
 }
 
 func c01Special(name string) bool {
@@ -585,10 +587,10 @@ type c01Family struct {
 func c01AnySymptom(string, string, string) bool { return true }
 
 const (
-	c01SigMisrouted     = "default-fallback:pod-event-misses-pod-still-counted-in-default-quota"
-	c01SigStaleCache    = "migrateCycle:cached-pod-object-stale"
-	c01SigReparentOver  = "quotaReparent:old-ancestors-request-undercounted:moved-quota-request-over-max"
-	c01SigDeleteOver    = "quotaDelete:ancestors-request-undercounted:deleted-quota-request-over-max"
+	c01SigMisrouted    = "default-fallback:pod-event-misses-pod-still-counted-in-default-quota"
+	c01SigStaleCache   = "migrateCycle:cached-pod-object-stale"
+	c01SigReparentOver = "quotaReparent:old-ancestors-request-undercounted:moved-quota-request-over-max"
+	c01SigDeleteOver   = "quotaDelete:ancestors-request-undercounted:deleted-quota-request-over-max"
 )
 
 // overMaxFamily: the quota that leaves (re-parent or delete) had request > max; the explained symptom is an
@@ -1001,6 +1003,7 @@ func (w *c01World) reparentMoves() []c01Move {
 	var out []c01Move
 	for _, n := range w.userQuotas() {
 		if w.flags.NoReparentOver && w.overMax(n) {
+			w.excludedMoves++ // exclusion pass: counted, reported as class "excluded-over-max-move"
 			continue
 		}
 		h := w.height(n)
@@ -1098,22 +1101,12 @@ func (w *c01World) opQuotaDelete(t *rapid.T) {
 	w.log("quotaDelete %s (pods inside=%v; assigned pod inside=%v; request>max before=%v)", name, w.members(name), load, over)
 	obj := q.build()
 	delete(w.quotas, name)
-	for _, pn := range w.membersOfDeleted(name) {
+	for _, pn := range w.members(name) {
 		w.pods[pn].In, w.pods[pn].Assigned = "", false
 	}
 	if err := w.drv.QuotaDelete(obj); err != nil {
 		w.violation(t, "quotaDelete:error", "DeleteQuota(%s) returned %v", name, err)
 	}
-}
-
-func (w *c01World) membersOfDeleted(q string) []string {
-	var out []string
-	for _, pn := range vk.SortedKeys(w.pods) {
-		if w.pods[pn].In == q {
-			out = append(out, pn)
-		}
-	}
-	return out
 }
 
 func (w *c01World) labelChoices() []string {
@@ -1501,6 +1494,7 @@ func c01RunHistory(t *rapid.T, rec *vk.Rec, mk func(scaleMin bool, sysMax, defMa
 	c.ClassIf(!flags.Orphans, "mode:strict-routing")
 	c.ClassIf(flags.Orphans && flags.EagerMigrate && flags.FreezeInFallback, "mode:orphans-safe-fallback")
 	c.ClassIf(flags.NoReparentOver, "mode:exclude-over-max-move")
+	c.ClassIf(w.excludedMoves > 0, "excluded-over-max-move")
 	c.ClassIf(flags.IgnoreTerm, "mode:ignore-terminating")
 	c.ClassIf(len(w.hist) >= 20, "history>=20")
 	if w.sawReparentLoad || w.sawDeleteLoad || w.sawOverMax {
